@@ -36,7 +36,7 @@ RULE = ('checksum: sizes k*cs-1, k*cs, k*cs+1 (k=0..3) x chunk sizes {1,2,7,64,4
         'errno of errno.errorcode x every directory/path state. non-trivial = non-empty content or an injected '
         'fault or a directory-tree state; distinct by the full parameter tuple')
 REQUIRED_CLAUSES = [
-    'documented-keyword-call', 'falsy-remove-callable-is-used', 'no-descriptor-left-open', 'checksum-reentrant-at-yield', 'checksum-equals-whole-digest', 'errno-decides-not-exception-class', 'tempfile-dirs-removed-between-calls',
+    'documented-keyword-call', 'ensure-directory-behind-symlink', 'falsy-remove-callable-is-used', 'no-descriptor-left-open', 'checksum-reentrant-at-yield', 'checksum-equals-whole-digest', 'errno-decides-not-exception-class', 'tempfile-dirs-removed-between-calls',
     'last-bytes-tail-and-count', 'last-bytes-n0', 'last-bytes-n-exceeds-size',
     'seek-EINVAL-fallback', 'seek-other-errno',
     'tempfile-new-distinct', 'tempfile-content-exact', 'tempfile-existing-untouched',
@@ -608,6 +608,47 @@ def _ev_ensure_real(ctx, case, fu):
         shutil.rmtree(d, ignore_errors=True)
 
 
+def _ev_ensure_link(ctx, case, fu):
+    """The path already IS a directory - through a symbolic link (absolute, relative or a chain of links): the work is
+    done, ensure_tree succeeds and changes nothing; write_to_tempfile into it works; directories below it can be made."""
+    how, below = case['how'], case['below']
+    d = _casedir(ctx)
+    try:
+        real = os.path.join(d, 'real-dir')
+        os.makedirs(real)
+        _write(os.path.join(real, 'inside'), b'keep')
+        link = os.path.join(d, 'the-link')
+        if how == 'absolute':
+            os.symlink(real, link)
+        elif how == 'relative':
+            os.symlink('real-dir', link)
+        else:
+            os.symlink(real, os.path.join(d, 'hop'))
+            os.symlink('hop', link)
+        target = os.path.join(link, *below)
+        before = _snapshot(d)
+        got, exc = _call(fu.ensure_tree, target)
+        after = _snapshot(d)
+        ctx.case(('ensure-link', how, tuple(below)))
+        ctx.clause('ensure-directory-behind-symlink')
+        if exc is not None:
+            ctx.fail('ensure-directory-behind-symlink', case, {'exc': exc, 'below': below})
+            return
+        if not below and after != before:
+            ctx.fail('ensure-directory-behind-symlink', case, {'note': 'tree changed although the directory existed'})
+        if not os.path.isdir(os.path.join(real, *below)) or not os.path.islink(link):
+            ctx.fail('ensure-directory-behind-symlink', case, {'note': 'directory not (only) created behind the link'})
+        got2, exc2 = _call(fu.ensure_tree, target)
+        if exc2 is not None:
+            ctx.fail('ensure-idempotent', case, {'second_call': exc2})
+        got3, exc3 = _call(fu.write_to_tempfile, b'content', path=target)
+        if exc3 is not None or not isinstance(got3, str) or _read(got3) != b'content' or \
+                os.path.dirname(os.path.realpath(got3)) != os.path.realpath(os.path.join(real, *below)):
+            ctx.fail('tempfile-in-directory', case, {'via_symlink': True, 'got': got3, 'exc': exc3})
+    finally:
+        shutil.rmtree(d, ignore_errors=True)
+
+
 def _ev_delete_inject(ctx, case, fu):
     code, state = case['code'], case['state']
     d = _casedir(ctx)
@@ -744,7 +785,7 @@ def _ev_delete_real(ctx, case, fu):
 
 EVALUATORS = {'cksum': _ev_cksum, 'last': _ev_last, 'seekfail': _ev_seekfail, 'tmpfile': _ev_tmpfile,
               'ensure-inject': _ev_ensure_inject, 'ensure-real': _ev_ensure_real,
-              'delete-inject': _ev_delete_inject, 'delete-real': _ev_delete_real}
+              'ensure-link': _ev_ensure_link, 'delete-inject': _ev_delete_inject, 'delete-real': _ev_delete_real}
 
 
 def _nfds():
@@ -915,6 +956,9 @@ def run(ctx):
                 name = 'v%04x%s' % (rd.getrandbits(16), rd.choice(['', '.txt', ' x', '.é']))
                 emit(dict(kind='delete-real', state=state, remover=remover, name=name, size=rd.randrange(0, 100)))
 
+    for how in ('absolute', 'relative', 'chain'):
+        for below in ([], ['sub'], ['a', 'b', 'c']):
+            emit(dict(kind='ensure-link', how=how, below=below))
     # ---- 7. write_to_tempfile -----------------------------------------
     rt = ctx.rng('tmpfile')
     suffixes = [None, '', '.s', '.conf', '~', '.tar.gz', '-é']
